@@ -54,7 +54,7 @@ class Section(dict):
 
         if self.imports:
             for pkgname in self.imports:
-                result.append('%import ' + pkgname)
+                result.append('%import ' + pkgname.replace('$', '$$'))
             result.append('')
 
         if self.type:
@@ -68,7 +68,8 @@ class Section(dict):
         lst = sorted(self.items())
         for name, values in lst:
             for value in values:
-                result.append(f'{pre}{name} {value}')
+                result.append(
+                    '{}{} {}'.format(pre, name, value.replace('$', '$$')))
 
         if self.sections and self:
             result.append('')
